@@ -127,7 +127,7 @@ def reader_loop_lemma():
     return lambda: vc.run_unit('reader-loop', thunk)
 
 
-def units(tier, seed):
+def _units_body(tier, seed):
     classes = [c for c in common.select_classes(e1.binary_classes(), tier, 'C04') if e1.is_framing(c)]
     out = [k7_unit(c) for c in classes]
     out.append(Unit('lemma/reader-loop', reader_loop_lemma(), level='property', clause='reader loop lemma'))
@@ -154,4 +154,10 @@ def units(tier, seed):
 
 
 from checks import regions as _regions
+
+def units(tier, seed):
+    from checks import canary
+    return list(_units_body(tier, seed)) + [canary.e2_layout()]
+
+
 FINDING_REPLAYS = _regions.finding_replays('C04')
